@@ -27,6 +27,7 @@
 #include "competency_table.hpp"
 #include "pest_host_table.hpp"
 #include "utils.hpp"
+#include "verif_hooks.hpp"
 
 namespace pops {
 
@@ -237,6 +238,14 @@ public:
         double establishment_tester = 1 - deterministic_establishment_probability;
         if (establishment_stochasticity)
             establishment_tester = distribution_uniform(generator);
+#ifdef POPS_CORE_VERIF
+        POPS_VERIF_EVENT(
+            "establish",
+            generator,
+            establishment_tester,
+            probability_of_establishment,
+            establishment_tester < probability_of_establishment ? 1.0 : 0.0);
+#endif
         if (establishment_tester < probability_of_establishment)
             return true;
         return false;
@@ -309,6 +318,15 @@ public:
         else {
             dispersers_from_cell = std::lround(lambda * infected_at(row, col));
         }
+#ifdef POPS_CORE_VERIF
+        POPS_VERIF_EVENT(
+            "generate",
+            generator,
+            static_cast<double>(row),
+            static_cast<double>(col),
+            lambda,
+            static_cast<double>(dispersers_from_cell));
+#endif
         return dispersers_from_cell;
     }
 
